@@ -211,6 +211,7 @@ def logStep (st : LogSt) (toks : List String) : LogSt × String :=
     | some sub =>
       let (d, e, sub') := Subscribe.drain st.l sub
       ({ st with sub := some sub' }, s!"ok {" ".intercalate (d.map showRecBrief)} | {showEnding e}")
+  | ["dump"] => (st, "ok " ++ " ".intercalate (st.l.abs.map showRecBrief))
   | ["tsearliest", t] =>
     match t.toInt? with
     | some t => (st, match Subscribe.earliestAfterTs st.l t with | .ok o => s!"ok {o}" | .err e => "err " ++ e | .panic => "panic")
